@@ -171,11 +171,14 @@ class StmtMixin(CallMixin):
             self._want_elem = want.args[0]
         if want is not None and want.kind == 'dict':
             self._want_dict = want
+        if want is not None and want.kind == 'set':
+            self._want_set_elem = want.args[0]
         try:
             v = self.eval(node)
         finally:
             self._want_elem = None
             self._want_dict = None
+            self._want_set_elem = None
         if want is not None and v.ty.kind != 'py':
             v = coerce(v, want)
         return v
